@@ -54,4 +54,4 @@ def run(ctx):
     poolconf.design_legs(ctx, configs, ['CallOK', 'NoBad', 'NoLeftovers', 'NoDeadlock'], False, ['CallOK'], hconf, crnd, 30 if quick else 300, 30 if quick else 300, JUDGE)
     poolconf.factory_design_legs(ctx, quick, ['CallOK', 'NoBad', 'NoDeadlock'], 'stale', ['NoDeadlock'])
     rnd = random.Random(ctx.seed * 7919 + 103)
-    C01.run_family(ctx, scenarios(rnd, quick), 200 if quick else 3000, "C03")
+    C01.run_family(ctx, scenarios(rnd, quick), 400 if quick else 15000, "C03")
